@@ -73,6 +73,30 @@ theorem push_into_from_source_under_right_join_unsound :
       ≠ rightJoin (fun a b => eq3 (col 0 a) (col 0 b)) (select (fun a => gt3 (col 0 a) (.int 5)) [[.int 1]]) [[.int 1]] 1 := by
   decide
 
+/-- NECESSITY of "only the LAST right join's source" (/repo b9fa271; before it the FIRST right-joined source took
+    the predicate): x RIGHT JOIN y ON … RIGHT JOIN z ON … WHERE y.b > 1 with x, y empty and z = {(1,1)}: the
+    original filters the NULL-padded row away, pushing the WHERE into y keeps it.  Pure bag fact: it cannot break
+    on regeneration; the code-side fact is `rightJoinLastOnly = true` in `push_guards_present`. -/
+theorem push_below_second_right_join_unsound :
+    select (fun row => gt3 (col 3 row) (.int 1))
+        (rightJoin (fun a b => eq3 (col 2 a) (col 0 b))
+          (rightJoin (fun a b => eq3 (col 0 a) (col 0 b)) [] [] 2) [[.int 1, .int 1]] 4) = [] ∧
+    rightJoin (fun a b => eq3 (col 2 a) (col 0 b))
+        (rightJoin (fun a b => eq3 (col 0 a) (col 0 b)) [] (select (fun b => gt3 (col 1 b) (.int 1)) []) 2)
+        [[.int 1, .int 1]] 4
+      = [[.null, .null, .null, .null, .int 1, .int 1]] := by decide
+
+/-- the model's candidate restriction under the extracted flag: with two RIGHT joins the first right-joined source
+    is no longer a WHERE target, the last one is -/
+theorem last_right_join_only :
+    whereDecision pushAtoms rightJoinLastOnly
+        ⟨⟨"x", .table⟩, [(.right, ⟨"y", .derived ⟨false, false, false, false, false, 1⟩⟩),
+                         (.right, ⟨"z", .derived ⟨false, false, false, false, false, 1⟩⟩)]⟩ ["y"] = [] ∧
+    whereDecision pushAtoms rightJoinLastOnly
+        ⟨⟨"x", .table⟩, [(.right, ⟨"y", .derived ⟨false, false, false, false, false, 1⟩⟩),
+                         (.right, ⟨"z", .derived ⟨false, false, false, false, false, 1⟩⟩)]⟩ ["z"] = [.select "z"] := by
+  decide
+
 /-- a filter over a derived table's output moves inside the derived table (`replace_aliases` = composing with the
     projection), below its own WHERE -/
 theorem push_filter_into_derived (p w : Row → B3) (f : Row → Row) (t : Table) :
@@ -97,6 +121,7 @@ theorem push_guard_sound (s : SelShape) (h : canPushIntoSelect pushAtoms s = tru
 /-- TABLE FACTS (decided completely against Generated/C03.lean): every guard the theorems rely on is present -/
 theorem push_guards_present :
     (∀ a ∈ allPushAtoms, a ∈ pushAtoms) ∧ fullJoinGuard = true ∧ rightJoinRestrict = true ∧
+    rightJoinLastOnly = true ∧
     sidedJoinBlocks = true ∧ Side.right ∈ onLoopSkips ∧ Side.full ∈ onLoopSkips := by decide
 
 example : canPushIntoSelect pushAtoms ⟨false, false, false, false, false, 1⟩ = true := by decide
@@ -232,16 +257,65 @@ theorem eliminate_cross_join_single_row (l : Table) (b : Row) (π g : Row → Ro
     project π (product l [b]) = project g l :=
   project_product_single l b π g hunused
 
-/-- clean-tree finding: `_has_single_output_row` accepts LIMIT 1 (and aggregates under GROUP BY / HAVING, and
-    FROM-less SELECT … WHERE), which only bound the row count by one from ABOVE; with ZERO rows the cross join is
-    empty and dropping it is wrong -/
+/-- what the no-ON branch relies on, read off the guards extracted on this run (since /repo 030ac60): a source
+    accepted as single-row WITHOUT a LIMIT 1 has no HAVING, no WHERE on a FROM-less SELECT, and is either FROM-less
+    or an un-grouped all-aggregate SELECT — the shapes that return EXACTLY one row, which is the hypothesis of
+    `eliminate_cross_join_single_row` -/
+theorem single_row_guard_sound (s : ElimShape) (h : hasSingleOutputRow singleRowGuards s = true)
+    (hl : s.limit1 = false) :
+    s.having = false ∧ (s.where_ && s.noFrom) = false ∧ (s.noFrom = true ∨ (s.group = false ∧ s.allAgg = true)) := by
+  have hg : singleRowGuards = allSingleRowAtoms := by decide
+  rw [hg] at h
+  obtain ⟨isScope, used, side, hasOn, uo, dg, ns, jk, allAgg, limit1, noFrom, group, having, where_⟩ := s
+  simp only at hl
+  subst hl
+  revert h
+  cases having <;> cases where_ <;> cases noFrom <;> cases group <;> cases allAgg <;> decide
+
+/-- STILL TRUE TODAY (known finding C03-eliminate-joins-limit1-empty; fixtures pin the rewrite): LIMIT 1 bounds the
+    row count by one from ABOVE only; with ZERO rows the cross join is empty and dropping it is wrong -/
 theorem eliminate_cross_join_at_most_one_row_unsound :
     project (fun r => [col 0 r]) (product [[.int 1], [.int 2]] (limitOffset (some 1) 0 []))
       ≠ project (fun r => [col 0 r]) [[.int 1], [.int 2]] := by decide
 
+/-- the model still accepts LIMIT 1 as single-row, as the code does -/
+theorem limit1_still_accepted :
+    hasSingleOutputRow singleRowGuards
+      { isScope := true, used := false, side := .none, hasOn := false, uniqueOutputs := [], joinKeys := [],
+        allAgg := false, limit1 := true, noFrom := false } = true := by decide
+
+/-- UNREPAIRED VARIANT (before 030ac60, `guards = []`): aggregates under GROUP BY were accepted although they return
+    one row PER GROUP — x = {(1)} × two groups gives two rows.  Pure model/bag facts, independent of regeneration. -/
+theorem eliminate_cross_join_grouped_aggregates_unsound :
+    hasSingleOutputRow []
+      { isScope := true, used := false, side := .none, hasOn := false, uniqueOutputs := [], joinKeys := [],
+        allAgg := true, limit1 := false, noFrom := false, group := true } = true ∧
+    hasSingleOutputRow allSingleRowAtoms
+      { isScope := true, used := false, side := .none, hasOn := false, uniqueOutputs := [], joinKeys := [],
+        allAgg := true, limit1 := false, noFrom := false, group := true } = false ∧
+    project (fun r => [col 0 r]) (product [[.int 1]] [[.int 1], [.int 1]]) ≠ project (fun r => [col 0 r]) [[.int 1]] := by
+  decide
+
+/-- UNREPAIRED VARIANT: HAVING / a FROM-less SELECT with WHERE may return NO row; the cross join is then empty -/
+theorem eliminate_cross_join_empty_source_unsound :
+    hasSingleOutputRow []
+      { isScope := true, used := false, side := .none, hasOn := false, uniqueOutputs := [], joinKeys := [],
+        allAgg := true, limit1 := false, noFrom := false, having := true } = true ∧
+    hasSingleOutputRow allSingleRowAtoms
+      { isScope := true, used := false, side := .none, hasOn := false, uniqueOutputs := [], joinKeys := [],
+        allAgg := true, limit1 := false, noFrom := false, having := true } = false ∧
+    hasSingleOutputRow []
+      { isScope := true, used := false, side := .none, hasOn := false, uniqueOutputs := [], joinKeys := [],
+        allAgg := false, limit1 := false, noFrom := true, where_ := true } = true ∧
+    hasSingleOutputRow allSingleRowAtoms
+      { isScope := true, used := false, side := .none, hasOn := false, uniqueOutputs := [], joinKeys := [],
+        allAgg := false, limit1 := false, noFrom := true, where_ := true } = false ∧
+    project (fun r => [col 0 r]) (product [[.int 1]] []) ≠ project (fun r => [col 0 r]) [[.int 1]] := by
+  decide
+
 theorem eliminate_guards_present :
     elimTop = [.isScope, .notUsed] ∧ elimBranchA = [.sideLeft, .joinedOnAllUnique] ∧
-    elimBranchB = [.noOn, .singleRow] := by decide
+    elimBranchB = [.noOn, .singleRow] ∧ (∀ a ∈ allSingleRowAtoms, a ∈ singleRowGuards) := by decide
 
 -- ------------------------------------------------------------------------------------------ optimize_joins
 /-- inner joins commute as bags, up to the column permutation the projection undoes -/
